@@ -282,6 +282,8 @@ def gen_fix(rng, n):
         g = G.rat_iso(rng, dim)
         L = std_iso(rng, dim, kind)
         M = G.matmulF(G.matmulF(G.invF(g), L), g)
+        if rng.random() < 0.3:
+            M = [[-x for x in r] for r in M]          # the other projective representative
         yield {"dim": dim, "kind": kind, "M": [G.qv(r) for r in M], "g": [G.qv(r) for r in g]}
 
 
@@ -300,14 +302,16 @@ def run_fix(inp):
         order.append(hits)
     # the refined fixed vectors: real columns with eigenvalue set to exactly 1 that are fixed by M
     n = len(ev)
-    cand = [k for k in range(n) if ev[k] == 1 and np.abs(np.imag(evec[:, k])).max() == 0.0]
+    cand = [k for k in range(n) if ev[k] in (1, -1) and np.abs(np.imag(evec[:, k])).max() == 0.0]
+    lam = np.array([float(np.real(ev[k])) for k in cand])
     B = np.real(evec[:, cand]).T if cand else np.zeros((0, n))
     gram = B @ G.J(inp["dim"]) @ B.T if cand else np.zeros((0, 0))
-    kdim = int(np.sum(np.linalg.svd(M.T - np.eye(n), compute_uv=False) < 1e-8))   # independent computation
+    kdim = int(np.sum(np.linalg.svd(M.T - np.eye(n), compute_uv=False) < 1e-8)
+               + np.sum(np.linalg.svd(M.T + np.eye(n), compute_uv=False) < 1e-8))   # independent computation
     return {"abs": np.abs(ev).tolist(), "absim": np.abs(np.imag(ev)).tolist(), "norm_re": np.real(norms).tolist(),
             "norm_im": np.imag(norms).tolist(), "order": order,
             "refine": {"count": len(cand), "kdim": kdim,
-                       "fixed": float(np.abs(B @ M - B).max()) if cand else 0.0,
+                       "fixed": float(np.abs(B @ M - lam[:, None] * B).max()) if cand else 0.0,
                        "offdiag": float(np.abs(gram - np.diag(np.diag(gram))).max()) if cand else 0.0,
                        "min_norm": float(np.min(np.diag(gram))) if cand else None,
                        "rank": int(np.linalg.matrix_rank(B, tol=1e-8)) if cand else 0}}
@@ -364,14 +368,20 @@ def gen_o_reflect(rng, n):
             ds = [x for x in ds if G.mink(np.array(x), np.array(x)) > 0.2]
             if len(ds) < dim + 1:
                 shape, ds = [], [[0.1, 1.0, 0.3] + [0.0] * (dim - 2)]
+        ipack = None
+        if rng.random() < 0.25:
+            # integral normals in every packaging of the data (integer arrays, nested lists of ints, float32)
+            ds = [[float(x) for x in G.int_spacelike(rng, dim)] for _ in ds]
+            ipack = rng.choice(G.DATA_PACKS)
         yield {"dim": dim, "shape": shape, "d": ds, "w": [rng.gauss(0, 1) for _ in range(dim + 1)],
-               "normals_only": rng.random() < 0.7}
+               "normals_only": rng.random() < 0.7, "ipack": ipack}
 
 
 def run_o_reflect(inp):
     dim, shape = inp["dim"], tuple(inp["shape"])
     d = np.array(inp["d"]).reshape(shape + (dim + 1,))
-    Hp = H.Hyperplane(d.copy(), normals_only=True) if inp.get("normals_only") else H.Hyperplane(d.copy())
+    arg = G.pack_data(d, inp["ipack"]) if inp.get("ipack") else d.copy()
+    Hp = H.Hyperplane(arg, normals_only=True) if inp.get("normals_only") else H.Hyperplane(arg)
     out = {"shape_ok": list(Hp.shape) == list(shape)}
     if not out["shape_ok"]:
         out["shape"] = list(Hp.proj_data.shape)
@@ -414,21 +424,22 @@ def judge_o_reflect(inp, obs, lr):
     # without the keyword an array of exactly n+1 normals is (documented) read as one hyperplane's data
     square = bool(inp["shape"]) and inp["shape"][-1] == inp["dim"] + 1 and not inp.get("normals_only")
     tags = {"composite": bool(inp["shape"]), "dim": inp["dim"], "square_shape": square, "call_site": "Hyperplane.__init__",
-            "normals_only": bool(inp.get("normals_only"))}
+            "normals_only": bool(inp.get("normals_only")), "data_pack": inp.get("ipack") or "float64"}
     if "exc" in obs:
         return {"expected": "hyperplane(s) and reflection(s)", "observed": obs, "tags": dict(tags, exc=obs["exc"])}
     if not obs["shape_ok"]:
         return {"expected": {"one hyperplane per normal, shape": inp["shape"]}, "observed": obs.get("shape"), "tags": dict(tags, what="shape")}
-    t = 1e-8
+    f = 1e4 if inp.get("ipack") == "float32" else 1.0       # float32 data carries 6e-8 relative error
+    t = 1e-8 * f
     if not (obs["invol"] <= t and obs["form"] <= t):
         return {"expected": "involutive isometry", "observed": obs, "tags": dict(tags, what="involution")}
-    if not all(abs(x + 1) <= 1e-8 for x in obs["det"]):
+    if not all(abs(x + 1) <= 1e-8 * f for x in obs["det"]):
         return {"expected": "orientation reversing (det -1)", "observed": obs["det"], "tags": dict(tags, what="det")}
     if not obs["normal"] <= t:
         return {"expected": "normal negated", "observed": obs["normal"], "tags": dict(tags, what="normal")}
-    if not (obs["ideal_null"] <= 1e-7 and obs["ideal_fixed"] <= 1e-7 and obs["wall_fixed"] <= 1e-7):
+    if not (obs["ideal_null"] <= 1e-7 * f and obs["ideal_fixed"] <= 1e-7 * f and obs["wall_fixed"] <= 1e-7 * f):
         return {"expected": "wall fixed pointwise", "observed": obs, "tags": dict(tags, what="wall")}
-    if not (obs["rt_shape"] and obs["rt_normal"] <= 1e-7 and obs["rt_ideal"] <= 1e-7 and obs["rt_refl"] <= 1e-7 and obs.get("geo", 0) <= 1e-7):
+    if not (obs["rt_shape"] and obs["rt_normal"] <= 1e-7 * f and obs["rt_ideal"] <= 1e-7 * f and obs["rt_refl"] <= 1e-7 * f and obs.get("geo", 0) <= 1e-7 * f):
         return {"expected": "from_reflection(reflection_across(H)) = H", "observed": obs, "tags": dict(tags, what="roundtrip")}
     return None
 
@@ -474,6 +485,9 @@ def float_std(dim, kind, a, t):
         L[1, 1] = 1
     elif kind == "neg_id":
         L = -L
+    elif kind == "screw":          # translation along the (x0,x1) axis times a rotation about it (dim >= 3): no eigenvalue 1
+        L[0, 0], L[0, 1], L[1, 0], L[1, 1] = math.cosh(t), math.sinh(t), math.sinh(t), math.cosh(t)
+        L[2, 2], L[2, 3], L[3, 2], L[3, 3] = math.cos(a), math.sin(a), -math.sin(a), math.cos(a)
     elif kind == "half_turn":      # rotation by pi about a codimension-2 subspace
         L[1, 1] = -1
         L[2, 2] = -1
@@ -521,9 +535,11 @@ def judge_o_nonrefl(inp, obs, lr):
 def gen_o_fixed(rng, n):
     for _ in range(n):
         dim = rng.choice([2, 2, 3, 4])
-        kind = rng.choice(["rot", "lox", "lox", "par"])
-        yield {"dim": dim, "kind": kind, "g": G.float_iso(rng, dim).tolist(), "a": rng.uniform(0.3, 2.8),
-               "t": rng.uniform(0.3, 3.0) * rng.choice([-1, 1]), "col": rng.random() < 0.3}
+        kind = rng.choice(["rot", "lox", "lox", "par", "screw"] if dim >= 3 else ["rot", "lox", "lox", "par"])
+        # both projective representatives +-M of the isometry, negative parameters of the standard_* constructors
+        yield {"dim": dim, "kind": kind, "g": G.float_iso(rng, dim).tolist(), "a": rng.uniform(0.3, 2.8) * rng.choice([-1, 1]),
+               "t": rng.uniform(0.3, 3.0) * rng.choice([-1, 1]), "col": rng.random() < 0.3,
+               "sign": rng.choice([1, 1, -1]), "neg_param": rng.random() < 0.3}
 
 
 def run_o_fixed(inp):
@@ -532,10 +548,12 @@ def run_o_fixed(inp):
     if inp["kind"] == "rot":
         L = np.array(H.Isometry.standard_rotation(inp["a"], dimension=dim).proj_data, dtype=float)
     elif inp["kind"] == "lox":
-        L = np.array(H.Isometry.standard_loxodromic(dim, math.exp(inp["t"])).proj_data, dtype=float)
+        # a negative parameter gives the other projective representative of the same translation
+        par = math.exp(inp["t"]) * (-1 if inp.get("neg_param") else 1)
+        L = np.array(H.Isometry.standard_loxodromic(dim, par).proj_data, dtype=float)
     else:
-        L = float_std(dim, "par", 0, inp["t"])
-    M = np.linalg.inv(g) @ L @ g
+        L = float_std(dim, inp["kind"], inp["a"], inp["t"])
+    M = inp.get("sign", 1) * (np.linalg.inv(g) @ L @ g)
     iso = H.Isometry(M.T.copy(), column_vectors=True) if inp["col"] else H.Isometry(M.copy())
     fp = np.array(iso.fixed_point().proj_data, dtype=float)
     pair = np.array(iso.fixed_point_pair().proj_data, dtype=float)
@@ -549,7 +567,7 @@ def run_o_fixed(inp):
         w = v @ M
         return [float(np.abs(np.outer(w, v) - np.outer(v, w)).max()), float(G.mink(v, v))]
     out["plain"] = {"fp": _res(fp2), "pair0": _res(pair2[0]), "pair1": _res(pair2[1]), "pair_shape": list(pair2.shape)}
-    if inp["kind"] == "lox":
+    if inp["kind"] in ("lox", "screw"):
         out["axis"] = np.array(iso.axis().proj_data, dtype=float).tolist()
         att = np.array([1.0, 1.0 if inp["t"] > 0 else -1.0] + [0.0] * (dim - 1)) @ g
         rep = np.array([1.0, -1.0 if inp["t"] > 0 else 1.0] + [0.0] * (dim - 1)) @ g
@@ -564,15 +582,17 @@ def lean_o_fixed(inp, obs):
         return []
     M = [[Q.qs(x) for x in r] for r in obs["M"]]
     ops = [{"op": "c15.fixed_residual", "M": M, "v": [Q.qs(x) for x in obs["fp"]]}]
-    if inp["kind"] == "lox":
+    if inp["kind"] in ("lox", "screw"):
         ops += [{"op": "c15.fixed_residual", "M": M, "v": [Q.qs(x) for x in row]} for row in obs["pair"]]
     return ops
 
 
 def judge_o_fixed(inp, obs, lr):
     dim, kind = inp["dim"], inp["kind"]
+    loxlike = kind in ("lox", "screw")
     # eigenvalue 1 has an eigenspace of dimension >= 2 (containing spacelike fixed vectors): known finding
-    tags = {"kind": kind, "dim": dim, "call_site": "Isometry.fixed_point", "eigenspace_one_dim_ge_2": kind in ("rot", "par") and dim >= 3}
+    tags = {"kind": kind, "dim": dim, "call_site": "Isometry.fixed_point", "eigenspace_one_dim_ge_2": kind in ("rot", "par") and dim >= 3,
+            "sign": inp.get("sign", 1), "neg_param": bool(inp.get("neg_param"))}
     if "exc" in obs:
         return {"expected": "fixed point", "observed": obs, "tags": dict(tags, exc=obs["exc"])}
     e = drv_err(lr)
@@ -589,14 +609,14 @@ def judge_o_fixed(inp, obs, lr):
         return {"expected": "interior point for an elliptic isometry", "observed": {"norm": norm}, "tags": dict(tags, what="interior")}
     pl = obs["plain"]
     if not (pl["fp"][0] <= 1e-6 * scale and pl["fp"][1] <= 1e-6 and pl["pair0"][0] <= 1e-6 * scale and pl["pair0"][1] <= 1e-6
-            and (kind != "lox" or pl["pair1"][0] <= 1e-5 * scale)):
+            and (not loxlike or pl["pair1"][0] <= 1e-5 * scale)):
         return {"expected": "fixed_point(max_eigval=False) / fixed_point_pair(sort_eigvals=False): fixed points, the first in the closed ball",
                 "observed": pl, "tags": dict(tags, what="unsorted option")}
-    if kind == "lox" and not (abs(pl["pair1"][1]) <= 1e-6):
+    if loxlike and not (abs(pl["pair1"][1]) <= 1e-6):
         return {"expected": "loxodromic, unsorted option: both reported points are the ideal endpoints", "observed": pl, "tags": dict(tags, what="unsorted pair")}
     if kind == "par" and not G.proj_equal(obs["fp"], obs["par_fix"], 1e-4):
         return {"expected": {"the ideal fixed point": obs["par_fix"]}, "observed": obs["fp"], "tags": dict(tags, what="parabolic")}
-    if kind == "lox":
+    if loxlike:
         for k, rr in enumerate(lr[1:]):
             q = rr["ok"]
             if not (float(F(q["cross"])) <= 1e-6 * scale and abs(float(F(q["norm"]))) <= 1e-6):
@@ -640,8 +660,10 @@ def gen_o_batch(rng, n):
             elif what == "mixed_reject":
                 kind = rng.choice(["refl", "refl", "rot", "lox", "id", "two_refl", "point_refl_neg"])
             else:
-                kind = rng.choice(["lox", "lox", "lox", "rot", "par"])
-            units.append({"kind": kind, "g": g.tolist(), "a": rng.uniform(0.3, 2.8), "t": rng.uniform(0.3, 2.5) * rng.choice([-1, 1])})
+                # heterogeneous batches: elliptic, parabolic, loxodromic, screw motions (no eigenvalue 1), either representative +-M
+                kind = rng.choice(["lox", "lox", "rot", "par", "screw"] if dim >= 3 else ["lox", "lox", "lox", "rot", "par"])
+            units.append({"kind": kind, "g": g.tolist(), "a": rng.uniform(0.3, 2.8) * rng.choice([-1, 1]), "t": rng.uniform(0.3, 2.5) * rng.choice([-1, 1]),
+                          "sign": rng.choice([1, 1, -1]) if what == "fixed" else 1})
         if what == "mixed_reject" and all(u["kind"] == "refl" for u in units):
             units[rng.randrange(k)]["kind"] = "rot"
         yield {"dim": dim, "what": what, "units": units}
@@ -649,7 +671,7 @@ def gen_o_batch(rng, n):
 
 def run_o_batch(inp):
     dim = inp["dim"]
-    mats = np.array([_conj(np.array(u["g"]), float_std(dim, "rot" if u["kind"] == "rot" else u["kind"], u["a"], u["t"])) for u in inp["units"]])
+    mats = np.array([u.get("sign", 1) * _conj(np.array(u["g"]), float_std(dim, u["kind"], u["a"], u["t"])) for u in inp["units"]])
     iso = H.Isometry(mats.copy())
     k = len(mats)
     out = {"k": k}
@@ -688,7 +710,13 @@ def run_o_batch(inp):
                 w = v @ M
                 return float(np.abs(np.outer(w, v) - np.outer(v, w)).max()), float(G.mink(v, v))
             rec = {"j": j, "kind": u["kind"], "fp": resid(fp[j])}
-            if u["kind"] == "lox":
+            # the member on its own (a single Isometry with the same matrix) must give the same answer
+            single = H.Isometry(M.copy())
+            sfp = np.real(np.array(single.fixed_point().proj_data, dtype=complex)).astype(float)
+            spair = np.real(np.array(single.fixed_point_pair().proj_data, dtype=complex)).astype(float)
+            rec["same_as_single"] = bool(G.proj_equal(fp[j], sfp, 1e-6) and G.proj_equal(pair[j, 0], spair[0], 1e-6)
+                                         and (u["kind"] not in ("lox", "screw") or G.proj_equal(pair[j, 1], spair[1], 1e-6)))
+            if u["kind"] in ("lox", "screw"):
                 sgn = 1.0 if u["t"] > 0 else -1.0
                 att = np.array([1.0, sgn] + [0.0] * (dim - 1)) @ g
                 rep = np.array([1.0, -sgn] + [0.0] * (dim - 1)) @ g
@@ -725,7 +753,9 @@ def judge_o_batch(inp, obs, lr):
             return {"expected": "every unit: reported point fixed by its own isometry, in the closed ball", "observed": rec, "tags": dict(tags, check="fixed", kind=rec["kind"])}
         if rec["kind"] == "rot" and not norm < -1e-9:
             return {"expected": "elliptic unit: interior point", "observed": rec, "tags": dict(tags, check="interior")}
-        if rec["kind"] == "lox" and not rec["order"]:
+        if not rec.get("same_as_single", True):
+            return {"expected": "every member of the array answers like the same isometry on its own", "observed": rec, "tags": dict(tags, check="member vs single", kinds=kinds)}
+        if rec["kind"] in ("lox", "screw") and not rec["order"]:
             return {"expected": "loxodromic unit: its own two ideal endpoints, attracting first", "observed": rec, "tags": dict(tags, check="order")}
     return None
 
@@ -804,12 +834,13 @@ HI_OPS = ["query", "query", "left", "right", "setitem", "set", "flatten", "inv",
 
 
 def _hi_unit(rng, dim):
-    kind = rng.choice(["lox", "lox", "lox", "rot", "par"])
-    return {"kind": kind, "g": G.float_iso(rng, dim).tolist(), "a": rng.uniform(0.4, 2.7), "t": rng.uniform(0.4, 2.0) * rng.choice([-1, 1])}
+    kind = rng.choice(["lox", "lox", "rot", "par", "screw"] if dim >= 3 else ["lox", "lox", "lox", "rot", "par"])
+    return {"kind": kind, "g": G.float_iso(rng, dim).tolist(), "a": rng.uniform(0.4, 2.7) * rng.choice([-1, 1]),
+            "t": rng.uniform(0.4, 2.0) * rng.choice([-1, 1]), "sign": rng.choice([1, 1, 1, -1])}
 
 
 def _hi_mat(dim, u):
-    return _conj(np.array(u["g"]), float_std(dim, u["kind"], u["a"], u["t"]))
+    return u.get("sign", 1) * _conj(np.array(u["g"]), float_std(dim, u["kind"], u["a"], u["t"]))
 
 
 def gen_o_hist_iso(rng, n):
